@@ -392,8 +392,60 @@ func r11_4(c *RC) {
 				}
 			}
 		}
-		if src {
-			c.OKH(key, s.Pos(), "IngressCredentials = slice appended in this function")
+		// every origin of the list other than the appends is empty (nil, or a
+		// make with length 0): a make with a positive length puts zero-valued
+		// {"" ""} credentials in front of the real ones
+		var stray []string
+		var walk func(v ssa.Value, seen map[ssa.Value]bool)
+		walk = func(v ssa.Value, seen map[ssa.Value]bool) {
+			if seen[v] {
+				return
+			}
+			seen[v] = true
+			switch x := v.(type) {
+			case *ssa.Phi:
+				for _, e := range x.Edges {
+					walk(e, seen)
+				}
+			case *ssa.Call:
+				if b, ok := x.Common().Value.(*ssa.Builtin); ok && b.Name() == "append" {
+					walk(x.Common().Args[0], seen)
+					return
+				}
+				stray = append(stray, describe(v))
+			case *ssa.Const:
+				if !x.IsNil() {
+					stray = append(stray, describe(v))
+				}
+			case *ssa.MakeSlice:
+				if k, ok := constInt(x.Len); !ok || k != 0 {
+					stray = append(stray, "make with length "+describe(x.Len))
+				}
+			case *ssa.Slice:
+				// alloc-backed literal or reslice
+				if x.High != nil {
+					if k, ok := constInt(x.High); ok && k == 0 {
+						return
+					}
+				}
+				stray = append(stray, describe(v))
+			case *ssa.UnOp:
+				if a, ok := x.X.(*ssa.Alloc); ok {
+					for _, st := range allocStores(a) {
+						walk(st, seen)
+					}
+					return
+				}
+				stray = append(stray, describe(v))
+			default:
+				stray = append(stray, describe(v))
+			}
+		}
+		walk(s.Val, map[ssa.Value]bool{})
+		if src && len(stray) > 0 {
+			c.Bad(key, s.Pos(), "the credential list does not start empty (%s): zero-valued credentials (empty user, empty password) are then accepted by the listener", strings.Join(stray, ", "))
+		} else if src {
+			c.OKH(key, s.Pos(), "IngressCredentials = slice appended in this function, starting empty")
 		} else {
 			c.Bad(key, s.Pos(), "IngressCredentials is %s, not the list built from the configured socks5Authentication", describe(s.Val))
 		}
